@@ -113,3 +113,7 @@ Definition sc_algo (alts : list N) (orders : list (list N)) : result (option (li
           end
       end
   end.
+
+(* the Boolean of the returned pair *)
+Definition sc_algo_verdict (alts : list N) (orders : list (list N)) : bool :=
+  match sc_algo alts orders with Ok (Some _) => true | _ => false end.
